@@ -75,10 +75,31 @@ Theorem C20_template_placeholder : forall vars n,
 Proof. exact render_var. Qed.
 Print Assumptions C20_template_placeholder.
 
+(* Query parameters (k=v(&k=v)* with the "process" flag): accepted strings are exactly the
+   printed forms of well-formed item lists, and parsing returns exactly what they spell. *)
+Theorem C20_params_print_parse : forall kvs,
+  wf_kvs kvs = true -> parse_params (print_kvs kvs) = Some (params_of kvs).
+Proof. exact parse_params_print. Qed.
+Print Assumptions C20_params_print_parse.
+
+Theorem C20_params_parse_print : forall s p,
+  parse_params s = Some p ->
+  exists kvs, wf_kvs kvs = true /\ trim s = print_kvs kvs /\ p = params_of kvs.
+Proof. exact parse_params_sound. Qed.
+Print Assumptions C20_params_parse_print.
+
+Theorem C20_params_rejects : forall s,
+  parse_params s = None <-> ~ exists kvs, wf_kvs kvs = true /\ trim s = print_kvs kvs.
+Proof. exact parse_params_rejects. Qed.
+Print Assumptions C20_params_rejects.
+
 (* non-vacuity: a concrete well-formed query and a concrete fallback *)
 Example C20_nonvacuous :
   let q := mkQuery [113;99] 1 [114;49] [101;47;102] in
   wf_query q = true /\
   parse_query ([32] ++ print_query q ++ [10]) = Some q /\
-  resolve (fun p => str_eqb p (print_query (with_any_role q))) q = Some (with_any_role q).
+  resolve (fun p => str_eqb p (print_query (with_any_role q))) q = Some (with_any_role q) /\
+  wf_kvs [([97], [49;44;50]); (k_process, [70])] = true /\
+  parse_params ([32] ++ print_kvs [([97], [49;44;50]); (k_process, [70])]) =
+    Some (mkParams false [([97], [49;44;50])]).
 Proof. vm_compute. repeat split; reflexivity. Qed.
